@@ -725,3 +725,119 @@ func throughValidators(ok func(cond ssa.Value, truth bool) bool) func(cond ssa.V
 	}
 	return wide
 }
+
+// checkErrStops (R4.err-stops): for every call of a decoder (a function whose name
+// contains Unmarshal: encoding/json.Unmarshal, Attr.UnmarshalToType, the package's own
+// unmarshalers) in f (f returns
+// (..., error)), the error case of that call cannot reach a return whose error
+// result is the constant nil. The walk starts in the block of the call, follows
+// every edge, except that at a branch on "<error of this call, possibly merged
+// with others in a phi> ==/!= nil" it follows only the non-nil edge. An error
+// that is examined but does not stop the function (a shadowed err, a test whose
+// only effect is to skip a statement) is reported with the call and the return.
+func checkErrStops(p *Prog, r *Report, f *ssa.Function, rule string) int {
+	res := f.Signature.Results()
+	if res == nil || res.Len() == 0 || !isErrorType(res.At(res.Len()-1).Type()) {
+		return 0
+	}
+	n := 0
+	eachInstr(f, func(ins ssa.Instruction) {
+		c, ok := ins.(*ssa.Call)
+		if !ok {
+			return
+		}
+		cres := c.Common().Signature().Results()
+		if cres == nil || cres.Len() == 0 || !isErrorType(cres.At(cres.Len()-1).Type()) {
+			return
+		}
+		var errVal ssa.Value
+		if cres.Len() == 1 {
+			errVal = c
+		} else {
+			for _, ref := range referrers(c) {
+				if ex, ok := ref.(*ssa.Extract); ok && ex.Index == cres.Len()-1 {
+					errVal = ex
+				}
+			}
+		}
+		if errVal == nil || len(referrers(errVal)) == 0 {
+			return // dropped altogether: R4.err-dropped's business
+		}
+		// decoders only: the calls whose failure means "the input is refused"
+		if sc := c.Common().StaticCallee(); sc == nil || !strings.Contains(funcName(sc), "Unmarshal") {
+			return
+		}
+		derived := map[ssa.Value]bool{errVal: true}
+		for changed := true; changed; {
+			changed = false
+			eachInstr(f, func(i2 ssa.Instruction) {
+				phi, ok := i2.(*ssa.Phi)
+				if !ok || derived[phi] {
+					return
+				}
+				for _, e := range phi.Edges {
+					if derived[e] {
+						derived[phi] = true
+						changed = true
+						return
+					}
+				}
+			})
+		}
+		errEdge := func(cond ssa.Value) int { // successor index taken when the error is non-nil, -1 if not a test of it
+			b, ok := cond.(*ssa.BinOp)
+			if !ok || (b.Op != token.NEQ && b.Op != token.EQL) {
+				return -1
+			}
+			if !(derived[b.X] && isNilConst(b.Y) || derived[b.Y] && isNilConst(b.X)) {
+				return -1
+			}
+			if b.Op == token.NEQ {
+				return 0
+			}
+			return 1
+		}
+		n++
+		calleeName := "?"
+		if sc := c.Common().StaticCallee(); sc != nil {
+			calleeName = strings.TrimPrefix(fullName(sc), targetPkgPath+".")
+		} else if c.Common().IsInvoke() {
+			calleeName = c.Common().Method.Name()
+		}
+		key := funcName(f) + ":" + p.describe(c)
+		seen := map[*ssa.BasicBlock]bool{}
+		work := []*ssa.BasicBlock{c.Block()}
+		var offending *ssa.Return
+		for len(work) > 0 && offending == nil {
+			b := work[len(work)-1]
+			work = work[:len(work)-1]
+			if seen[b] {
+				continue
+			}
+			seen[b] = true
+			if len(b.Instrs) == 0 {
+				continue
+			}
+			switch last := b.Instrs[len(b.Instrs)-1].(type) {
+			case *ssa.Return:
+				if len(last.Results) > 0 && isNilConst(last.Results[len(last.Results)-1]) {
+					offending = last
+				}
+			case *ssa.If:
+				if e := errEdge(last.Cond); e >= 0 {
+					work = append(work, b.Succs[e])
+				} else {
+					work = append(work, b.Succs...)
+				}
+			default:
+				work = append(work, b.Succs...)
+			}
+		}
+		if offending != nil {
+			r.bad(rule, key, p.pos(c.Pos()), fmt.Sprintf("when %s fails, %s can still return success (return at %s): no branch on that error leads away from the successful return, so an input the decoder refused is accepted", calleeName, funcName(f), p.pos(offending.Pos())))
+		} else {
+			r.ok(rule, key, p.pos(c.Pos()), "the error case of "+calleeName+" never reaches a successful return")
+		}
+	})
+	return n
+}
